@@ -7,6 +7,7 @@ From Coq Require Import ZArith List Bool NArith Lia ZifyBool.
 From Coq.Strings Require Import Byte String.
 From EsVerif.Common Require Import Base Bytes.
 From EsVerif.C01 Require Import Framing Model Gen.
+From EsVerif.C01 Require Import FramingProofs PyLib.
 Import ListNotations.
 Open Scope Z_scope.
 Open Scope list_scope.
@@ -32,6 +33,35 @@ Qed.
 Theorem gen_make_header_eq (pyval : Type) v_str v_descr hdr dt :
   gen_make_header pyval v_str v_descr hdr dt = make_header pyval v_str v_descr hdr dt.
 Proof. unfold gen_make_header, make_header. rewrite gen_strip_eq. reflexivity. Qed.
+
+(* the model's header framing is the translation of the list that SFile._write_header joins *)
+Theorem gen_mk_header_eq n d : gen_mk_header n d = mk_header n d.
+Proof. unfold gen_mk_header, mk_header. cbn [join app]. rewrite ?app_nil_r. reflexivity. Qed.
+
+(* the model's choice of header lines (first line = size, lines 1 .. len-3 joined by blanks = the
+   dict text) is the translation of the indices and the slice in SFile.read_header *)
+Lemma pyslice_lines (l0 : list byte) rest :
+  pyslice (l0 :: rest) 1 (Z.of_nat (length (l0 :: rest)) - 3) = firstn (length (l0 :: rest) - 3 - 1) rest.
+Proof.
+  unfold pyslice. cbn [length]. set (m := length rest).
+  destruct (Z.of_nat (S m) - 3 <? 0) eqn:E1.
+  - replace (Z.min 1 (Z.of_nat (S m))) with 1 by lia.
+    destruct (1 <? Z.max 0 (Z.of_nat (S m) - 3 + Z.of_nat (S m))) eqn:E2; [lia|].
+    replace (S m - 3 - 1)%nat with 0%nat by lia. reflexivity.
+  - replace (Z.min (Z.of_nat (S m) - 3) (Z.of_nat (S m))) with (Z.of_nat (S m) - 3) by lia.
+    replace (Z.min 1 (Z.of_nat (S m))) with 1 by lia.
+    destruct (1 <? Z.of_nat (S m) - 3) eqn:E2.
+    + change (Z.to_nat 1) with 1%nat. cbn [skipn]. f_equal. lia.
+    + replace (S m - 3 - 1)%nat with 0%nat by lia. reflexivity.
+Qed.
+
+Theorem gen_parse_header_eq hs : gen_parse_header hs = parse_header hs.
+Proof.
+  unfold gen_parse_header, parse_header. change (split_on x0a hs) with (split_nl hs).
+  destruct (split_nl hs) as [|l0 rest] eqn:E; [exfalso; exact (split_on_nonempty nl hs E)|].
+  cbn [nth]. destruct (parse_size l0); cbn [bind]; [|reflexivity].
+  rewrite pyslice_lines. reflexivity.
+Qed.
 
 (* ---------------------------------------------------------------- integer functions *)
 Theorem gen_count_nrows_eq filelen offset rs :
